@@ -806,7 +806,10 @@ class BaseSetIndexSortValues(Expr):
 
     @property
     def npartitions(self):
-        return self.operand("npartitions") or len(self._divisions()) - 1
+        # the ``npartitions`` operand is only the number of partitions the
+        # divisions are requested for: repeated quantiles are dropped, so
+        # the result can have fewer partitions
+        return len(self._divisions()) - 1
 
 
 class SetIndex(BaseSetIndexSortValues):
